@@ -5,12 +5,14 @@ import (
 	"hash/adler32"
 	"hash/crc32"
 	"hash/fnv"
+	"io"
 	"net/http"
 	"net/http/httptest"
 	"net/url"
 	"sort"
 	"strings"
 
+	"github.com/gookit/color"
 	"github.com/gookit/rux"
 
 	"verif/mc/fw"
@@ -597,6 +599,20 @@ func c07Special(st *fw.Stats, add func(sig, msg string)) {
 			run("routes n0 = GET /users/{id:\\d+}, n1 = GET+POST /users/{name}, n2 = GET /{any}/{thing}; URLs built with BuildURL between the requests", named, o, seq)
 		}
 	}
+	// (f) rux's debug mode (tracing output) must not make a cached answer differ from an uncached one
+	func() {
+		chainDebugMu.Lock()
+		color.SetOutput(io.Discard)
+		rux.Debug(true)
+		defer func() {
+			rux.Debug(false)
+			color.ResetOutput()
+			chainDebugMu.Unlock()
+		}()
+		for _, o := range []func(bool) []func(*rux.Router){plainOpts, naOpts} {
+			run("debug mode on; routes n0 = GET /users/{id:\\d+}, n1 = GET+POST /users/{name}, n2 = GET /{any}/{thing}", named, o, [][3]string{{"GET", "/users/7", ""}, {"GET", "/users/7", ""}, {"POST", "/users/7", ""}, {"POST", "/users/7", ""}, {"HEAD", "/users/bob", ""}, {"HEAD", "/users/bob", ""}, {"DELETE", "/users/7", ""}, {"GET", "/x/y", ""}, {"GET", "/x/y", ""}})
+		}
+	}()
 	for name, pair := range c07Collisions() {
 		a, b := "/p/"+pair[0], "/p/"+pair[1]
 		run("keys that collide under "+name, colDefs, plainOpts, [][3]string{{"GET", a, ""}, {"GET", b, ""}, {"GET", a, ""}, {"GET", b, ""}})
@@ -695,7 +711,7 @@ var c07Spec = fw.Spec[c07Case]{
 	Level:      "model_checking",
 	StateGraph: true,
 	Rule: "explicit-state search to fix-point per configuration (13 route tables x {HandleMethodNotAllowed} x {HandleFallbackRoute} x {StrictLastSlash} x capacities 0..3(4)): state = cache content in recency order with route and params per entry (verif hook); " +
-		"all histories of length <=2 (thorough 3) without state merging, then every reachable state x every request of the alphabet (13 / 16 requests: hits, misses, evictions, HEAD->GET, 405 probes, fallback, 404) executed on the real caching router via Match and ServeHTTP and compared with the non-caching twin; for capacity 2 also next to a sibling router built from the very same option values; for capacity 2 (thorough 1 and 3) the graph is explored again with the registration of the table's last route as one more action, enabled once at any point; plus plain / percent-encoded URL sequences under UseEncodedPath, matched and unmatched paths of 230..290 bytes with HandleMethodNotAllowed, pairs of cache keys that collide under six common 32-bit string hashes, requests with 9 method strings outside the supported nine right after the path was cached for GET / POST / OPTIONS, URLs of named routes built with BuildURL between the requests, and pairs of request paths of every length 10..309 bytes that differ only in their last 1-3 bytes, requested alternately under four methods; non-trivial = newly reached distinct cache state",
+		"all histories of length <=2 (thorough 3) without state merging, then every reachable state x every request of the alphabet (13 / 16 requests: hits, misses, evictions, HEAD->GET, 405 probes, fallback, 404) executed on the real caching router via Match and ServeHTTP and compared with the non-caching twin; for capacity 2 also next to a sibling router built from the very same option values; for capacity 2 (thorough 1 and 3) the graph is explored again with the registration of the table's last route as one more action, enabled once at any point; plus plain / percent-encoded URL sequences under UseEncodedPath, matched and unmatched paths of 230..290 bytes with HandleMethodNotAllowed, pairs of cache keys that collide under six common 32-bit string hashes, requests with 9 method strings outside the supported nine right after the path was cached for GET / POST / OPTIONS, URLs of named routes built with BuildURL between the requests, repeated requests while rux's debug mode is on, and pairs of request paths of every length 10..309 bytes that differ only in their last 1-3 bytes, requested alternately under four methods; non-trivial = newly reached distinct cache state",
 	Assume: []string{
 		"canonical state = cache content only: tables and options are frozen after registration and contexts are reset per request (C10)",
 		"successor = replay of the shortest history on a fresh router plus one request",
